@@ -377,17 +377,50 @@ def stmt_text(node: ast.AST) -> str:
     return t if len(t) < 100 else t[:97] + '...'
 
 
+_PURE_BUILTINS = {'len', 'isinstance', 'min', 'max', 'abs', 'int', 'bool', 'all', 'any'}
+
+
+def named_predicate(fn: ast.AST, test: ast.expr) -> ast.expr:
+    """a test that is a plain local bound exactly once in fn to a side-effect-free expression (a named condition:
+    `out_of_range = a + b > len(xs)` ... `if out_of_range:`) is read as that expression (position info of the test kept)."""
+    def resolve(e: ast.expr, depth: int = 0) -> ast.expr:
+        if isinstance(e, ast.UnaryOp) and isinstance(e.op, ast.Not):
+            return ast.copy_location(ast.UnaryOp(op=ast.Not(), operand=resolve(e.operand, depth)), e)
+        if isinstance(e, ast.BoolOp):
+            return ast.copy_location(ast.BoolOp(op=e.op, values=[resolve(v, depth) for v in e.values]), e)
+        if not isinstance(e, ast.Name) or depth > 2:
+            return e
+        stores = [st for st in ast.walk(fn) if isinstance(st, ast.Assign) and len(st.targets) == 1 and isinstance(st.targets[0], ast.Name)
+                  and st.targets[0].id == e.id]
+        others = [x for x in ast.walk(fn) if isinstance(x, ast.Name) and isinstance(x.ctx, ast.Store) and x.id == e.id]
+        params = [a.arg for a in getattr(getattr(fn, 'args', None), 'args', [])]
+        if len(stores) != 1 or len(others) != 1 or e.id in params:
+            return e
+        v = stores[0].value
+        if any(isinstance(x, ast.Call) and dotted(x.func) not in _PURE_BUILTINS for x in ast.walk(v)) or not isinstance(v, (ast.Compare, ast.BoolOp, ast.UnaryOp)):
+            return e
+        new = clone(v)
+        for x in ast.walk(new):
+            if hasattr(x, 'lineno'):
+                x.lineno = getattr(e, 'lineno', getattr(x, 'lineno', 0))          # type: ignore[attr-defined]
+        return resolve(new, depth + 1)
+    return resolve(test)
+
+
 def raise_guards(fn: ast.AST) -> List[Tuple[ast.expr, ast.Raise, List[ast.expr]]]:
-    """[(test, raise stmt, enclosing tests)] for every `if test: raise ...` (first body statement) in fn."""
+    """[(test, raise stmt, enclosing tests)] for every `if test: raise ...` (first body statement) in fn. a test that is a named
+    condition (see named_predicate) is returned as the condition it names."""
     out: List[Tuple[ast.expr, ast.Raise, List[ast.expr]]] = []
+    _fn0 = fn
 
     def rec(stmts: Sequence[ast.stmt], outer: List[ast.expr]) -> None:
         for st in stmts:
             if isinstance(st, ast.If):
                 rs = [s for s in st.body if isinstance(s, ast.Raise)]
+                tst = named_predicate(_fn0, st.test)
                 if rs:
-                    out.append((st.test, rs[0], list(outer)))
-                rec(st.body, outer + [st.test])
+                    out.append((tst, rs[0], list(outer)))
+                rec(st.body, outer + [tst])
                 rec(st.orelse, outer)
             elif isinstance(st, (ast.For, ast.While, ast.With)):
                 rec(st.body, outer)
@@ -871,3 +904,125 @@ def inline_module_constants(repo: 'Repo', rel: str, e: ast.expr) -> ast.expr:
                 return clone(binds[node.id])
             return node
     return ast.fix_missing_locations(Sub().visit(clone(e)))
+
+
+def normalize_tuple_unpack(fn: FuncNode) -> FuncNode:
+    """a copy of fn in which `t = CALL(..)` followed by `a = t[0]`, `b = t[1]`, .. (t used nowhere else) reads as
+    `a, b = CALL(..)`."""
+    new = clone(fn)
+
+    def fix(stmts: List[ast.stmt]) -> List[ast.stmt]:
+        out: List[ast.stmt] = []
+        i = 0
+        while i < len(stmts):
+            st = stmts[i]
+            for fld in ('body', 'orelse', 'finalbody'):
+                sub = getattr(st, fld, None)
+                if isinstance(sub, list) and sub and isinstance(sub[0], ast.stmt):
+                    setattr(st, fld, fix(sub))
+            if isinstance(st, ast.With):
+                st.body = fix(st.body)
+            if isinstance(st, ast.Assign) and len(st.targets) == 1 and isinstance(st.targets[0], ast.Name) and isinstance(st.value, ast.Call):
+                t = st.targets[0].id
+                elems: List[ast.expr] = []
+                j = i + 1
+                while j < len(stmts):
+                    nx = stmts[j]
+                    if isinstance(nx, ast.Assign) and len(nx.targets) == 1 and isinstance(nx.value, ast.Subscript) and norm(nx.value.value) == t \
+                            and isinstance(nx.value.slice, ast.Constant) and nx.value.slice.value == len(elems):
+                        elems.append(nx.targets[0])
+                        j += 1
+                    else:
+                        break
+                uses = sum(1 for x in ast.walk(new) if isinstance(x, ast.Name) and x.id == t and isinstance(x.ctx, ast.Load))
+                if len(elems) >= 2 and uses == len(elems):
+                    tup = ast.Tuple(elts=[clone(e) for e in elems], ctx=ast.Store())
+                    for e in tup.elts:
+                        if hasattr(e, 'ctx'):
+                            e.ctx = ast.Store()          # type: ignore[attr-defined]
+                    out.append(ast.copy_location(ast.Assign(targets=[tup], value=st.value), st))
+                    i = j
+                    continue
+            out.append(st)
+            i += 1
+        return out
+    new.body = fix(new.body)
+    return relink(ast.fix_missing_locations(new))
+
+
+def normalize_indexed_loops(fn: FuncNode) -> FuncNode:
+    """a copy of fn with the two index-walk spellings brought to one:
+    `for i, v in enumerate(X[a:b])` -> `for i in range(b - a)` with v read as X[a + i];
+    `for i, v in enumerate(X)`      -> `for i in range(len(X))` with v read as X[i]
+    (also inside generator expressions / comprehensions). the loop is assumed to stay inside X (what the original indexing
+    spelling assumes too)."""
+    new = clone(fn)
+
+    def rewrite(target: ast.expr, it: ast.expr) -> Optional[Tuple[ast.expr, ast.expr, str, ast.expr]]:
+        if not (isinstance(it, ast.Call) and dotted(it.func) == 'enumerate' and len(it.args) == 1 and isinstance(target, ast.Tuple)
+                and len(target.elts) == 2 and all(isinstance(e, ast.Name) for e in target.elts)):
+            return None
+        i, v = target.elts[0].id, target.elts[1].id          # type: ignore[attr-defined]
+        seq = it.args[0]
+        if isinstance(seq, ast.Subscript) and isinstance(seq.slice, ast.Slice) and seq.slice.step is None and seq.slice.lower is not None \
+                and seq.slice.upper is not None:
+            rng = ast.BinOp(left=seq.slice.upper, op=ast.Sub(), right=seq.slice.lower)
+            elem: ast.expr = ast.Subscript(value=seq.value, slice=ast.BinOp(left=seq.slice.lower, op=ast.Add(), right=ast.Name(id=i, ctx=ast.Load())), ctx=ast.Load())
+        else:
+            rng = ast.Call(func=ast.Name(id='len', ctx=ast.Load()), args=[seq], keywords=[])
+            elem = ast.Subscript(value=seq, slice=ast.Name(id=i, ctx=ast.Load()), ctx=ast.Load())
+        new_iter = ast.Call(func=ast.Name(id='range', ctx=ast.Load()), args=[rng], keywords=[])
+        return ast.Name(id=i, ctx=ast.Store()), new_iter, v, elem
+
+    class SubV(ast.NodeTransformer):
+        def __init__(self, v: str, elem: ast.expr):
+            self.v, self.elem = v, elem
+
+        def visit_Name(self, node: ast.Name) -> ast.AST:
+            if isinstance(node.ctx, ast.Load) and node.id == self.v:
+                return clone(self.elem)
+            return node
+
+    class T(ast.NodeTransformer):
+        def visit_For(self, node: ast.For) -> ast.AST:
+            self.generic_visit(node)
+            r = rewrite(node.target, node.iter)
+            if r is None or any(isinstance(x, ast.Name) and isinstance(x.ctx, ast.Store) and x.id == r[2] for b in node.body for x in ast.walk(b)):
+                return node
+            node.target, node.iter = r[0], r[1]
+            node.body = [SubV(r[2], r[3]).visit(b) for b in node.body]
+            return node
+
+        def _comp(self, node: Any) -> Any:
+            self.generic_visit(node)
+            for g in node.generators:
+                r = rewrite(g.target, g.iter)
+                if r is None:
+                    continue
+                g.target, g.iter = r[0], r[1]
+                if hasattr(node, 'elt'):
+                    node.elt = SubV(r[2], r[3]).visit(node.elt)
+                g.ifs = [SubV(r[2], r[3]).visit(c) for c in g.ifs]
+            return node
+        visit_GeneratorExp = visit_ListComp = visit_SetComp = _comp
+    new = T().visit(new)
+    return relink(ast.fix_missing_locations(new))
+
+
+def membership_searches(fn: FuncNode, seq: str) -> List[Tuple[ast.expr, List[ast.stmt], int, List[str]]]:
+    """`is some element of <seq> such that TEST` in either spelling:
+    `for a, b in SEQ: if TEST: BODY` (BODY ends in return / break) and `if any(TEST for a, b in SEQ): BODY`
+    -> [(TEST, BODY, line, loop variable names)]"""
+    out: List[Tuple[ast.expr, List[ast.stmt], int, List[str]]] = []
+    for n in ast.walk(fn):
+        if isinstance(n, ast.For) and norm(n.iter) == seq and len(n.body) == 1 and isinstance(n.body[0], ast.If) and not n.body[0].orelse \
+                and n.body[0].body and isinstance(n.body[0].body[-1], (ast.Return, ast.Break)):
+            names = [norm(e) for e in (n.target.elts if isinstance(n.target, ast.Tuple) else [n.target])]
+            out.append((n.body[0].test, n.body[0].body, n.lineno, names))
+        if isinstance(n, ast.If) and isinstance(n.test, ast.Call) and dotted(n.test.func) == 'any' and len(n.test.args) == 1 \
+                and isinstance(n.test.args[0], (ast.GeneratorExp, ast.ListComp)) and len(n.test.args[0].generators) == 1 \
+                and norm(n.test.args[0].generators[0].iter) == seq and not n.test.args[0].generators[0].ifs:
+            g = n.test.args[0].generators[0]
+            names = [norm(e) for e in (g.target.elts if isinstance(g.target, ast.Tuple) else [g.target])]
+            out.append((n.test.args[0].elt, n.body, n.lineno, names))
+    return out
